@@ -75,5 +75,9 @@ with cf.ThreadPoolExecutor(max_workers=6) as ex:
         res.append(r)
 ok = [r for r in res if r["confirmed"]]
 print("TOTAL %d refactorings confirmed, %d silent, %d with alarms" % (len(ok), sum(1 for r in ok if not r["alarms"]), sum(1 for r in ok if r["alarms"])))
-idx = {"refactorings": [{"id": os.path.basename(d)} for d in sorted(glob.glob(os.path.join(V, "seeded", "benign", "*"))) if os.path.exists(os.path.join(d, "patch.diff"))]}
-json.dump(idx, open(os.path.join(V, "seeded", "BENIGN.json"), "w"), indent=1)
+if not sel:
+    # a complete run: record the verdicts (the self-validation battery and DESIGN.md's table read this file)
+    byid = dict((r["id"], r) for r in ok)
+    idx = {"refactorings": [{"id": os.path.basename(d), "alarms": byid.get(os.path.basename(d), {}).get("alarms", [])}
+                            for d in sorted(glob.glob(os.path.join(V, "seeded", "benign", "*"))) if os.path.exists(os.path.join(d, "patch.diff"))]}
+    json.dump(idx, open(os.path.join(V, "seeded", "BENIGN.json"), "w"), indent=1)
